@@ -26,6 +26,11 @@ fn cmd_proj(c: &TerminalCommand) -> Value {
     }
 }
 
+fn mod_bits(m: surf_n_term::KeyMod) -> u32 {
+    use surf_n_term::KeyMod as M;
+    [M::SHIFT, M::ALT, M::CTRL, M::SUPER, M::HYPER, M::META, M::CAPSLOCK, M::NUMLOCK, M::PRESS].iter().enumerate().map(|(i, b)| if m.contains(*b) { 1u32 << i } else { 0 }).sum()
+}
+
 fn ev_proj(e: &TerminalEvent) -> Value {
     let (f, n): (&str, Vec<Value>) = match e {
         TerminalEvent::Raw(b) => return json!({"k": "raw", "d": "", "b": b, "f": "", "n": []}),
@@ -37,7 +42,8 @@ fn ev_proj(e: &TerminalEvent) -> Value {
         TerminalEvent::DeviceAttrs(set) => ("da1", set.iter().map(|x| digits(*x)).collect()),
         TerminalEvent::Color { name: TerminalColor::Palette(n), .. } => ("osc4", vec![digits(*n)]),
         TerminalEvent::Key(k) => match k.name {
-            KeyName::Char(c) => ("key", vec![digits(c as u32)]),
+            // key code and the modifier set (as the union of the bits it contains)
+            KeyName::Char(c) => ("key", vec![digits(c as u32), digits(mod_bits(k.mode))]),
             KeyName::F(n) => ("fkey", vec![digits(n)]),
             _ => ("", vec![]),
         },
